@@ -218,18 +218,18 @@ func finish(prop, tier string, seed uint64, ps []*Part, rs *runState, wall time.
 	}
 	sort.Strings(knownHit)
 	cov := map[string]any{
-		"evaluations":          len(rs.results),
-		"distinct_nontrivial":  len(distinct),
-		"rule":                 strings.Join(rules, " || "),
-		"samples":              samples,
-		"parts":                partSummary,
-		"observed":             counters,
-		"inconclusive":         inconclusive,
-		"inconclusive_reasons": inconclusiveReasons,
-		"race_reports":         len(rs.raceLog),
+		"evaluations":           len(rs.results),
+		"distinct_nontrivial":   len(distinct),
+		"rule":                  strings.Join(rules, " || "),
+		"samples":               samples,
+		"parts":                 partSummary,
+		"observed":              counters,
+		"inconclusive":          inconclusive,
+		"inconclusive_reasons":  inconclusiveReasons,
+		"race_reports":          len(rs.raceLog),
 		"race_reports_distinct": raceList,
-		"known_findings_hit":   knownHit,
-		"new_violations":       newViol,
+		"known_findings_hit":    knownHit,
+		"new_violations":        newViol,
 	}
 	ev := evidence{PropertyID: prop, Tier: tier, Seed: int64(seed), Level: meta.Level, Coverage: cov,
 		Assumptions: meta.Assumptions, WallS: wall.Seconds(), Violations: len(viols)}
